@@ -622,7 +622,14 @@ func NewLockedBooksMonitor(e *Env) *Monitor {
 			return
 		}
 		sl, ss := math.ZeroInt(), math.ZeroInt()
+		// every account that can hold eFUND in these histories: the lab accounts and the gov module
+		// account (the only module account that can raise an order, through a proposal)
+		type holder struct{ Addr sdk.AccAddress }
+		holders := []holder{{lab.ModAddr("gov")}}
 		for _, a := range e.L.Accts {
+			holders = append(holders, holder{a.Addr})
+		}
+		for _, a := range holders {
 			r1, e1 := ek.LockedUndByAddress(ctx, &enttypes.QueryLockedUndByAddressRequest{Owner: a.Addr.String()})
 			r2, e2 := ek.SpentEFUNDByAddress(ctx, &enttypes.QuerySpentEFUNDByAddressRequest{Address: a.Addr.String()})
 			if e1 != nil || e2 != nil {
